@@ -168,20 +168,45 @@ func openLive(m *model, dir string, rep *reporter) (*live, error) {
 		wal.SetFlushInterval(time.Hour)
 	}
 	lv := &live{dir: dir, wal: wal, w: w, m: m, rep: rep}
-	var auto *rec
-	if before == 0 {
-		auto = &rec{Idx: len(m.J), End: true, H: 0, Auto: true, Cycle: m.Cycle, File: headName, Off: 0, Len: -1}
-		m.J = append(m.J, auto)
-		m.head().Recs = append(m.head().Recs, auto.Idx)
+	rotated := false // any indexed file in the listing: that is what MinIndex != MaxIndex means after OpenGroup
+	if ents, err := os.ReadDir(dir); err == nil {
+		for _, e := range ents {
+			if isNumbered(e.Name()) {
+				rotated = true
+			}
+		}
 	}
 	if err := wal.Start(); err != nil {
 		lv.stop()
 		return nil, harnessErr{"wal.Start: " + err.Error()}
 	}
-	if auto != nil {
-		m.logf("OPEN cycle=%d: head empty, OnStart wrote EndHeight{0} as #%d", m.Cycle, auto.Idx)
-	} else {
+	// BaseWAL.OnStart writes EndHeightMessage{0} (with WriteSync) when it starts
+	// a new WAL.  Whether it did is observed, not assumed: the head was empty
+	// before and is not now.
+	var auto *rec
+	wrote := before == 0 && statSize(hp)+int64(wal.Group().Buffered()) > 0
+	if wrote {
+		auto = &rec{Idx: len(m.J), End: true, H: 0, Auto: true, Cycle: m.Cycle, File: headName, Off: 0, Len: -1}
+		m.J = append(m.J, auto)
+		m.head().Recs = append(m.head().Recs, auto.Idx)
+	}
+	switch {
+	case before > 0:
 		m.logf("OPEN cycle=%d: head has %d bytes", m.Cycle, before)
+	case wrote:
+		m.logf("OPEN cycle=%d: head empty (rotated files in the directory: %v), OnStart wrote EndHeight{0} as #%d", m.Cycle, rotated, auto.Idx)
+	default:
+		m.logf("OPEN cycle=%d: head empty (rotated files in the directory: %v), OnStart wrote nothing", m.Cycle, rotated)
+	}
+	if before == 0 {
+		k := "starts_with_empty_head_and_no_rotated_files"
+		if rotated {
+			k = "starts_with_empty_head_next_to_rotated_files"
+		}
+		rep.c.Count(k, 1)
+		if wrote {
+			rep.c.Count(k+"_marker_0_written", 1)
+		}
 	}
 	if err := lv.after(auto, 0, auto != nil); err != nil {
 		lv.stop()
